@@ -22,7 +22,7 @@ import proofs
 from common import hx
 
 FILES = ["Model_mindex.v", "Proofs_mindex.v", "Proofs_mindex_mass.v", "Proofs_mindex_single.v", "Proofs_mindex_batched.v",
-         "Proofs_mindex_single_tm.v", "Proofs_mindex_single_o.v", "Proofs_mindex_single_thm.v", "Proofs_mindex_hist.v",
+         "Proofs_mindex_single_tm.v", "Proofs_mindex_single_o.v", "Proofs_mindex_single_thm.v", "Proofs_mindex_hist.v", "Proofs_mindex_frame.v",
          "gen/Gen_mindex.v", "Inst_mindex.v", "Inst_mindex_random.v", "Inst_mindex_random_o.v", "Inst_mindex_random_r.v",
          "Inst_mindex_random_t.v", "Inst_mindex_random_h.v", "Inst_mindex_index.v", "Proofs_mindex_gen.v",
          "Entry_mindex.v", "Extract_mindex.v"]
@@ -67,7 +67,10 @@ class Recorder:
 
     def __enter__(self):
         rec = self
-        real_rot = self.st.Rotation
+        # pydrex.stats may no longer use scipy's Rotation (then no as_quat call is recorded and the correspondence
+        # reports that; the oracle hypothesis is still checked on the quaternions that enter misorientation_angles)
+        self._has_rot = hasattr(self.st, "Rotation")
+        real_rot = self.st.Rotation if self._has_rot else None
         real_ang = self.geo.misorientation_angles
         self._real = (real_rot, real_ang)
 
@@ -95,12 +98,15 @@ class Recorder:
             rec.angle_calls.append((np.array(q1, copy=True), np.array(q2, copy=True), np.array(out, copy=True)))
             return out
 
-        self.st.Rotation = RotProxy()
+        if self._has_rot:
+            self.st.Rotation = RotProxy()
         self.geo.misorientation_angles = ang
         return self
 
     def __exit__(self, *a):
-        self.st.Rotation, self.geo.misorientation_angles = self._real
+        if self._has_rot:
+            self.st.Rotation = self._real[0]
+        self.geo.misorientation_angles = self._real[1]
 
     def take(self):
         q, a = self.quats, self.angle_calls
@@ -179,6 +185,78 @@ def special_rotations():
         for deg in SPECIAL_DEGREES:
             out[f"{ax}{deg}"] = Rotation.from_rotvec(np.deg2rad(deg) * v).as_matrix()
     return out
+
+
+def signed_permutations():
+    """the 24 rotation matrices that are signed permutation matrices (exact in binary64)"""
+    import itertools
+    out = []
+    for perm in itertools.permutations(range(3)):
+        for signs in itertools.product((1.0, -1.0), repeat=3):
+            m = np.zeros((3, 3))
+            for i, (j, sg) in enumerate(zip(perm, signs)):
+                m[i, j] = sg
+            if round(np.linalg.det(m)) == 1:
+                out.append(m)
+    return out
+
+
+def oblique_half_turns():
+    """EXACT half turns about oblique axes: the six signed permutation matrices with trace -1 that are not diagonal
+    (axes (1,1,0), (1,-1,0), (1,0,1), (1,0,-1), (0,1,1), (0,1,-1)) and the four 2 n n^T - I about (1,+-1,+-1)/sqrt(3)
+    (exactly symmetric).  Their quaternion has w = 0: the relative signs of the axis components cannot be read from the
+    antisymmetric part of the matrix."""
+    out = [m for m in signed_permutations() if np.trace(m) == -1 and np.count_nonzero(np.diag(m)) == 1]
+    for sg in ((1, 1), (1, -1), (-1, 1), (-1, -1)):
+        nvec = np.array([1.0, sg[0], sg[1]]) / np.sqrt(3.0)
+        out.append(2.0 * np.outer(nvec, nvec) - np.eye(3))
+    return out
+
+
+def gen_oblique(chk, tier):
+    """grains that are exact half turns about oblique axes, for every lattice system: pairs of them (and with the
+    identity), aligned grains seen from a sample frame rotated by such a half turn, signed-permutation textures"""
+    rng = np.random.default_rng(chk.seed + 34)
+    obl = oblique_half_turns()
+    sps = signed_permutations()
+    rz90 = np.array([[0.0, -1.0, 0.0], [1.0, 0.0, 0.0], [0.0, 0.0, 1.0]])
+    out = []
+    for sysname in SYSTEMS:
+        base = [np.eye(3)] + obl[:6]
+        pairs = [(base[i], base[j]) for i in range(len(base)) for j in range(i + 1, len(base))]
+        if tier == "quick":
+            pairs = [pairs[i] for i in rng.choice(len(pairs), 8, replace=False)] + [(obl[1], obl[0]), (np.eye(3), obl[7])]
+        else:
+            pairs += [(obl[i], obl[j]) for i in range(6, 10) for j in range(i)]
+        for a, b in pairs:
+            out.append(dict(system=sysname, kind="boundary-oblique", n=2, os=np.stack([a, b]), label="oblique-pair"))
+        for Q in (obl[:6] + obl[6:8] if tier == "quick" else obl):   # aligned grains seen from a half-turned sample frame
+            out.append(dict(system=sysname, kind="boundary-oblique", n=3, os=np.stack([np.eye(3), rz90, haar(rng, 1)[0]]) @ Q.T,
+                            label="oblique-frame"))
+        k = 4 if tier == "quick" else 24
+        for t in range(k):
+            idx = rng.choice(len(sps), 4, replace=False)
+            out.append(dict(system=sysname, kind="boundary-oblique", n=4, os=np.stack([sps[i] for i in idx]), label="signed-permutations"))
+    return out
+
+
+def grain_quaternion_residual(os, q1a, q2a):
+    """oracle hypothesis of the matrix -> quaternion step, checked on what actually ENTERS misorientation_angles: the
+    first operator of every system is the identity, so q1_array[i, 0] / q2_array[i, 0] are the (float32) quaternions of
+    the two grains of pair i, whichever routine produced them.  Returns (worst residual, grain index)."""
+    n = len(os)
+    if n < 2:
+        return 0.0, -1
+    firsts = np.cumsum([0] + [n - 1 - a for a in range(n - 2)])          # index of pair (a, a+1), a = 0..n-2
+    qs = np.concatenate([np.asarray(q1a[firsts, 0], dtype=float), np.asarray(q2a[-1:, 0], dtype=float)])
+    qs = qs / np.linalg.norm(qs, axis=1, keepdims=True)
+    x, y, z, w = qs.T
+    m = np.stack([np.stack([x * x - y * y - z * z + w * w, 2 * (x * y - z * w), 2 * (x * z + y * w)], -1),
+                  np.stack([2 * (x * y + z * w), y * y - x * x - z * z + w * w, 2 * (y * z - x * w)], -1),
+                  np.stack([2 * (x * z - y * w), 2 * (y * z + x * w), z * z - x * x - y * y + w * w], -1)], 1)
+    r = np.abs(m - np.asarray(os, dtype=float)).reshape(n, -1).max(axis=1)
+    k = int(r.argmax())
+    return float(r[k]), k
 
 
 BOUNDARY_FIXED = [("id", "x180"), ("id", "y180"), ("id", "z180"), ("id", "xy180"), ("id", "xyz120"), ("id", "xyz180"),
@@ -285,7 +363,16 @@ def decide_variant(chk, ut, bad):
                 agree[v] += 1
         chk.note_case(("qprod", p.tobytes(), q.tobytes()), nontrivial=True)
     n = len(cases)
-    chk.cov["quat_product_agreement"] = {"cases": n, "Dropped": agree[0], "Hamilton": agree[1]}
+    gres = common.run_model([common.model_line("gen_qprod", [], list(p) + list(q)) for p, q in cases], group=GROUP)
+    gen_agree = 0
+    for (p, q), m in zip(cases, gres):
+        r = np.array(ut.quat_product(p, q), dtype=float)
+        if m[0] == "OK" and common.vec_close(list(r), m[1], rtol=1e-12)[0]:   # np.dot (BLAS) may differ from left-to-right sums in the last bit
+            gen_agree += 1
+        else:
+            bad.append((dict(function="quat_product", q1=p.tolist(), q2=q.tolist()),
+                        f"the GENERATED k_quat_product gives {m} but utils.quat_product gives {r.tolist()}"))
+    chk.cov["quat_product_agreement"] = {"cases": n, "Dropped": agree[0], "Hamilton": agree[1], "generated": gen_agree}
     if agree[1] == n:
         return 1
     if agree[0] == n:
@@ -320,6 +407,8 @@ def correspondence(chk, tier):
             if o.shape == (4, 4) and np.abs(o - np.diag(np.diag(o))).max() != 0:
                 bad.append((dict(function="symmetry_operations", system=name), "4x4 operator is not diagonal (model stores the diagonal)"))
         B.add("symops", [k], [], expect_vec(bad, dict(function="symmetry_operations", system=name), ("OK", fl), atol=1e-15, rtol=0))
+        B.add("gen_symops", [k], [], expect_vec(bad, dict(function="symmetry_operations", system=name, what="GENERATED table (RotSym stand-in) vs scipy"),
+                                                ("OK", fl), atol=1e-15, rtol=0))
         th = st._max_misorientation(s)
         edges = [(float(i), float(i + 1)) for i in range(th)]
         edges += [tuple(sorted(rng.uniform(0, th, 2))) for _ in range(10)]
@@ -328,6 +417,9 @@ def correspondence(chk, tier):
             r = impl_call(st.misorientations_random, lo, hi, s)
             B.add("random", [k], [lo, hi], expect_vec(bad, dict(function="misorientations_random", system=name, low=lo, high=hi),
                                                        ("OK", [r[1]]) if r[0] == "OK" else r, rtol=1e-11))
+            B.add("gen_random", [k], [lo, hi], expect_vec(bad, dict(function="misorientations_random", system=name, low=lo, high=hi,
+                                                                   what="GENERATED k_misorientations_random"),
+                                                           ("OK", [r[1]]) if r[0] == "OK" else r, rtol=1e-13))
             chk.note_case(("random", name, lo, hi), nontrivial=r[0] == "OK")
     # misorientation_angles on binary64 arrays
     for t in range(12 if tier == "quick" else 60):
@@ -350,7 +442,7 @@ def correspondence(chk, tier):
     near_total = 0
     bnd = chk.cov.setdefault("boundary", {})
     with Recorder() as rec:
-        for t in gen_textures(chk, tier) + gen_boundary(chk, tier):
+        for t in gen_textures(chk, tier) + gen_boundary(chk, tier) + gen_oblique(chk, tier):
             name, os, n = t["system"], t["os"], t["n"]
             boundary = t["kind"].startswith("boundary")
             k = SYSTEMS.index(name)
@@ -366,8 +458,25 @@ def correspondence(chk, tier):
             chk.note_case(("mindex", name, os.tobytes()), nontrivial=t["kind"] != "single",
                           sample=dict(function="misorientation_index", system=name, kind=t["kind"], n_grains=n,
                                       result=float(r[1]) if r[0] == "OK" else r[1]))
+            if len(acalls) == 1:
+                # oracle hypothesis of the matrix -> quaternion step on the quaternions that enter misorientation_angles
+                ops0 = np.asarray(geo.symmetry_operations(s)[0], dtype=float)
+                if ops0.shape == (4,) and np.array_equal(ops0, [0.0, 0.0, 0.0, 1.0]) and acalls[0][0].ndim == 3 \
+                        and acalls[0][0].shape[0] == n * (n - 1) // 2:
+                    res_q, kq = grain_quaternion_residual(os, acalls[0][0], acalls[0][1])
+                    chk.cov["grain_quaternion_residual_max"] = max(chk.cov.get("grain_quaternion_residual_max", 0.0), res_q)
+                    if not res_q <= 2e-6:
+                        bad.append((meta, f"oracle hypothesis: the quaternion of grain {kq} that enters misorientation_angles does not represent its "
+                                          f"orientation matrix (residual {res_q:.3e}; float32 storage allows 2e-6)"))
             if len(quats) != 1 or len(acalls) != 1:
                 bad.append((meta, f"expected one as_quat and one misorientation_angles call, saw {len(quats)} / {len(acalls)}"))
+                continue_after = True
+                if len(acalls) != 1:
+                    continue
+                # as_quat not recorded (the code converts the matrices some other way): compare what can still be compared
+                q1a, q2a, angs = acalls[0]
+                B.add("mindex_angles", [k], flat(angs), expect_vec(bad, dict(meta, what="index from the recorded pair angles"),
+                                                                   ("OK", [r[1]]) if r[0] == "OK" else r, rtol=1e-10))
                 continue
             mats, q, qa, qk = quats[0]
             if qa or qk:
@@ -407,6 +516,9 @@ def correspondence(chk, tier):
                 hh = impl_call(st.misorientation_hist, os, s)
             rec.take()
             if hh[0] == "OK":
+                # the GENERATED index applied to the implementation's own histogram
+                B.add("gen_index", [k], flat(hh[1][0]), expect_vec(bad, dict(meta, what="GENERATED k_misorientation_index of the implementation's histogram"),
+                                                                    ("OK", [r[1]]) if r[0] == "OK" else r, rtol=1e-12))
                 B.add("hist", [st._max_misorientation(s)], flat(angs),
                       expect_vec(bad, dict(meta, what="misorientation_hist density"), ("OK", flat(hh[1][0])), rtol=1e-12))
                 if not np.array_equal(hh[1][1], np.arange(st._max_misorientation(s) + 1.0)):
@@ -599,6 +711,30 @@ def oracle_texture(dg, st, geo, os, name, rng):
             fails.append(f"M-index {m!r} outside [0, {upper:.6f}]")
         if name in GOOD_MASS and abs(T - 1) > 1e-3:
             fails.append(f"theoretical density integrates to {T!r}")
+        if name == "triclinic" and angs is not None and len(os) <= 40:
+            # no symmetry operator but the identity (which the code's product applies correctly): every pair angle must be
+            # the misorientation angle of the two orientation matrices, cos(theta) = (tr(A B^T) - 1) / 2, and must not
+            # change under a rigid rotation of the sample frame
+            import itertools
+            pr = list(itertools.combinations(range(len(os)), 2))
+            ct = np.array([(np.trace(os[a] @ os[b].T) - 1.0) / 2.0 for a, b in pr]).clip(-1, 1)
+            d = np.abs(np.cos(np.radians(angs)) - ct)
+            if len(angs) == len(pr) and d.max() > 1e-5:
+                j = int(d.argmax())
+                fails.append(f"triclinic pair {pr[j]}: the pair angle is {float(angs[j])!r} but the misorientation angle of the two orientation "
+                             f"matrices is {float(np.degrees(np.arccos(ct[j])))!r}")
+            for Q in (haar(rng, 1)[0], oblique_half_turns()[1], oblique_half_turns()[7]):
+                with Recorder() as rec:
+                    dg.misorientation_index(os @ Q.T, s)
+                    _, ac2 = rec.take()
+                if len(ac2) == 1 and len(ac2[0][2]) == len(angs):
+                    a2 = np.asarray(ac2[0][2], dtype=float)
+                    d2 = np.abs(np.cos(np.radians(a2 / 2)) - np.cos(np.radians(angs / 2)))
+                    if d2.max() > 5e-6:
+                        j = int(d2.argmax())
+                        fails.append(f"triclinic pair angle {j} changes from {float(angs[j])!r} to {float(a2[j])!r} under a rigid rotation of the "
+                                     f"sample frame (Q = {Q.tolist()})")
+                        break
         m2 = float(dg.misorientation_index(os[rng.permutation(len(os))], s))
         if abs(m2 - m) > 1e-9:
             fails.append(f"M-index changes under a permutation of the grains: {m!r} -> {m2!r}")
@@ -751,6 +887,12 @@ def search(chk, extra=()):
         for a, b in BOUNDARY_FIXED:   # pair angles at the ends of the admissible range: exactly 0, exactly theta_max
             pool.append((np.stack([sp[a], sp[b]]), name))
         pool.append((np.stack([sp["id"], sp["x180"], sp["xyz120"], sp["xy180"]]), name))
+    obl = oblique_half_turns()
+    rz90 = np.array([[0.0, -1.0, 0.0], [1.0, 0.0, 0.0], [0.0, 0.0, 1.0]])
+    for name in SYSTEMS:                      # exact half turns about oblique axes (w = 0: axis signs not in the antisymmetric part)
+        pool.append((np.stack([obl[1], obl[0]]), name))
+        pool.append((np.stack([np.eye(3), rz90, obl[3]]) @ obl[1].T, name))
+        pool.append((np.stack([obl[7], obl[6], np.eye(3)]), name))
     for os, name in pool:
         fails = oracle_texture(dg, st, geo, os, name, np.random.default_rng(chk.seed + 2))
         if fails:
@@ -772,15 +914,19 @@ def search(chk, extra=()):
 
 def run(chk):
     ok, br = proofs.prove(chk, FILES, PROP, groups=(GROUP,), gen_modules=(GROUP,))
-    chk.cov["trusted_base"] = common.TRUSTED_COMMON[:1] + common.TRUSTED_COMMON[2:] + [
-        "hand-written Model_mindex.v (quaternion product variant, operator lists, pair angles, histogram, Grimmer density, index), tied to the source by this differential run (tie H); the operator lists and the density are transcribed formulas, compared entry by entry / bin by bin",
-        "scipy Rotation.as_quat is an oracle: unit quaternion whose rotation matrix is the input (checked on every recorded call to 1e-10)",
-        "the code stores the operator-multiplied quaternions in float32; the binary64 model is compared at 2e-6 in cos(angle/2), and the index from the full model path up to the pairs whose bin differs (counted as near_discontinuity); histogram and index from the RECORDED angles are compared at 1e-10",
-        "process pools (misorientation_indices) are outside the model: C14_batched_iff / _positional / _chunks / _first_error are about the model of imap as an order-preserving map (any chunking of the stack); equality and order under 1..4 [thorough 1..16] workers and an external pool are measured at run time only",
+    chk.cov["trusted_base"] = common.TRUSTED_COMMON + [
+        "tie T (translator/specs_mindex.py -> coq/gen/Gen_mindex.v, every run): utils.quat_product, geometry.symmetry_operations (every member), misorientation_angles, LatticeSystem.value / _max_misorientation / np.histogram parameter tables, stats.misorientations_random per system with symbolic edges, misorientation_hist up to np.histogram (2 and 3 grains), diagnostics.misorientation_index, misorientation_indices; instance lemmas generated = Model_mindex for all inputs (Inst_mindex*.v).  Trusted there: the RotSym stand-in for scipy Rotation inside symmetry_operations (identity, from_rotvec of t e_axis = (e sin(t/2), cos(t/2)); the real values are compared with the table entry by entry), the exact-rational reading of int/int on the enum values, round() of closed constants as round_upto 400 0 (range / tie checked numerically by the translator), np.clip / np.min / np.sum(axis=1) / rad2deg / deg2rad semantics, NumPy division that never raises, float32 storage ignored, SeqPool (imap = map) for the process pool",
+        "the generated k_quat_product, k_symmetry_operations_*, k_misorientations_random_*, k_misorientation_index_* are extracted too and run next to the model and the implementation (binary64: product 1e-12, tables 1e-15, densities 1e-13, index 1e-12), which checks the translator's reading of the source numerically",
+        "hand-written Model_mindex.v is the generic (any number of grains, any lattice) model the instance lemmas target; np.histogram(bins=n, range=(0,n), density=True) = Model_mindex.hist_density is tied by this differential run (tie H) on every texture",
+        "scipy Rotation.as_quat is an oracle: unit quaternion whose rotation matrix is the input (checked on every recorded call to 1e-10); the same hypothesis is checked on the float32 quaternions that ENTER misorientation_angles (first operator = identity), whichever routine produced them (2e-6)",
+        "the code stores the operator-multiplied quaternions in float32; the binary64 model is compared at 2e-6 in cos(angle/2), and the index from the full model path up to the pairs whose bin differs (counted as near_discontinuity); histogram and index from the RECORDED angles are compared at 1e-10; a non-finite index is a violation unless no recorded pair angle lies in [0, theta_max] (known finding)",
+        "process pools (misorientation_indices) are outside the model: C14_batched_iff / _positional / _chunks / _first_error are about the model of imap as an order-preserving map (any chunking of the stack), C14_gen_indices_positional about the generated code with a sequential pool; equality and order under 1..4 [thorough 1..16] workers and an external pool are measured at run time only",
     ]
     chk.cov["rule"] = ("textures: 120 [thorough 480] = 6 lattice systems x {random (Haar), clustered (sigma 0.5 rad), tight (0.08 rad), single orientation} x "
                        "n_grains in {2,3,5,10,20,40,80} and two textures of 200 grains [thorough: {2,...,120,200} for every system]; plus every unit bin and random / invalid (low, high) of misorientations_random for all systems, "
                        "operator tables, misorientation_angles on random binary64 quaternion arrays (incl. zero angles), 50 quaternion products, "
+                       "boundary stream: per system 64 two-grain textures (identity, special rotation) + 30 [400] other pairs of special rotations (30..180 degrees about <100>, <110>, <111>) + 12 [120] rotated-frame copies + 6 [40] textures of symmetry-equivalent copies (pair angles exactly 0 / exactly theta_max / above); "
+                       "oblique stream: per system 10 [45] pairs of exact half turns about oblique axes, 8 [10] aligned textures seen from a half-turned frame, 4 [24] signed-permutation textures; "
                        "batched stacks of 1..8 [thorough ..40] snapshots x worker counts.  distinct = distinct (function, system, input bytes); "
                        "non-trivial = not a single-orientation texture / a result that is not an error")
     bad, variant = [], 0
